@@ -104,7 +104,7 @@ def generate(rng: random.Random, tier: str) -> dict:
     # other parties registered their own listeners on the token before this request (one of them may fail when the token fires)
     listeners = [rng.choice(["ok", "raises", "raises"]) for _ in range(rng.choice([1, 2, 3]))] if (use_token and rng.random() < 0.25) else []
     return {"v": 1, "listeners": listeners, "wblock": wblock, "follow_up": follow_up, "timeout": timeout, "t0": t0, "uuid_seed": rng.getrandbits(40),
-            "mid": rng.choice([None, None, "req-1", "77"]), "mode": rng.choice(["parse_message", "model_validate"]),
+            "mid": rng.choice([None, None, "req-1", "77", 0, ""]), "mode": rng.choice(["parse_message", "model_validate"]),
             "params": rng.choice([None, {}, {"a": 1}, {"_meta": {"keep": 1}, "b": 2}, {"_meta": {"progressToken": "stale-token-from-earlier-attempt"}, "c": 3}]),
             "use_token": use_token, "cancel": cancel, "use_progress": use_progress, "cb": cb, "flood": flood, "events": events}
 
@@ -177,7 +177,7 @@ def execute(scn: dict) -> dict:
 
     fu = FakeUUID(scn["uuid_seed"])
     use_progress = scn["use_progress"]
-    rid = scn["mid"] if scn["mid"] is not None else str(fu.value(1 if use_progress else 0))
+    rid = scn["mid"] if scn["mid"] else str(fu.value(1 if use_progress else 0))
     ptoken = str(fu.value(0)) if use_progress else None
     timeout, T0 = scn["timeout"], ticks(scn["t0"])
     st = {"cb_calls": [], "cb_active": 0}
